@@ -135,10 +135,58 @@ def c01_case(key, vals, ch, legacy, junk):
     return None
 
 
+def coerced(ty, v):
+    """Python's bool/int overlap: the only type changes a round trip may make"""
+    if ty == 'bit' and type(v) is int and v in (0, 1):
+        return bool(v)
+    if ty in ('octet', 'short', 'long', 'longlong') and type(v) is bool:
+        return int(v)
+    return v
+
+
+@replayer
+def c01_accepted_case(key, vals, i):
+    """argument i holds a value of another type: if the library accepts the assignment, decoding
+    must give it back with the same value and type (up to bool/int)"""
+    cls = commands.INDEX_MAPPING[key]
+    k, b = catching(frame.marshal, real.make_method(cls, vals), 1)
+    if k != 'ok':
+        return None
+    with real.deadline(5):
+        k2, r = catching(frame.unmarshal, b)
+    if k2 != 'ok':
+        return ('decodable', '%s %r' % (k2, r))
+    a = cls.__slots__[i]
+    exp = expected_arg(cls.amqp_type(a), coerced(cls.amqp_type(a), vals[i]))
+    got = getattr(r[2], a)
+    if documented_exception(vals[i]):
+        return None
+    try:
+        ok = same(exp, got)
+    except Exception:  # noqa
+        ok = False
+    return None if ok else ('%s=%r (%s)' % (a, exp, type(exp).__name__), '%r (%s)' % (got, type(got).__name__))
+
+
 def oracle_c01(ctx):
     res = Result('c01.roundtrip')
     g = ctx.gen
     metas = ctx.generated['catalogue']['methods']
+    for meta in metas:
+        cls = commands.INDEX_MAPPING.get(meta['key'])
+        if cls is None:
+            continue
+        for i, a in enumerate(meta['args']):
+            cands = [b'', b'abc', b'\x00guest\x00guest', bytearray(b'ab'), True, False, 0, 1, 1.0, D(1), None, [], {}, 'x', 7]
+            for v in cands[:(len(cands) if ctx.thorough else 9)]:
+                vals = lanes.method_vals_ok(ctx, cls, meta)
+                vals[i] = v
+                res.case(pyrepr((meta['key'], i, v)), tag='accepted-if-other-type')
+                k, bad = catching(c01_accepted_case, meta['key'], vals, i)
+                if k != 'ok' or bad:
+                    res.violation('%s.%s accepts %r but does not return it' % (meta['name'], a['name'], v),
+                                  {'fn': 'c01_accepted_case', 'args': pyrepr((meta['key'], vals, i))},
+                                  bad[0] if k == 'ok' else 'oracle runs', bad[1] if k == 'ok' else repr(bad))
     reps = 10 if ctx.thorough else 2
     for meta in metas:
         key = meta['key']
@@ -313,8 +361,10 @@ def c04_method_case(key, vals, ch, legacy):
 
 
 @replayer
-def c04_header_case(size, vals, ch):
-    k, b = catching(frame.marshal, real.make_header(size, vals), ch)
+def c04_header_case(size, vals, ch, weight=0, class_id=None):
+    h = real.make_header(size, vals, weight=weight)
+    h.class_id = class_id
+    k, b = catching(frame.marshal, h, ch)
     if k != 'ok':
         return None
     ref = refenc.header_frame(size, vals, ch)
@@ -358,9 +408,10 @@ def oracle_c04(ctx):
         vals = lanes.props_vals(ctx, mask)
         size = g.r.choice([0, 1, 2 ** 63, 2 ** 64 - 1])
         res.case(pyrepr((mask, vals)), tag='header')
-        k, bad = catching(c04_header_case, size, vals, 7)
+        weight, cid = g.r.choice([(0, None), (0, None), (1, None), (65535, 60), (0, 10), (7, 0), (0, 65535)])
+        k, bad = catching(c04_header_case, size, vals, 7, weight, cid)
         if k != 'ok' or bad:
-            res.violation('content header bytes differ from the reference', {'fn': 'c04_header_case', 'args': pyrepr((size, vals, 7))},
+            res.violation('content header bytes differ from the reference (weight=%r class_id=%r)' % (weight, cid), {'fn': 'c04_header_case', 'args': pyrepr((size, vals, 7, weight, cid))},
                           bad[0] if k == 'ok' else 'reference runs', bad[1] if k == 'ok' else repr(bad))
     for content, ch in [(b'x', 0), (b'\xce' * 9, 65535), (bytes(range(256)), 258)]:
         res.case('body %r' % content[:4], tag='body')
@@ -436,25 +487,7 @@ def c05_frame_case(data, junk):
         k, r = catching(frame.unmarshal, data + junk)
     if k != 'ok':
         return ('decodes', '%s %r' % (k, r))
-    if r[0] != n or r[1] != ch:
-        return ((n, ch), r[:2])
-    f = r[2]
-    if kind == 'M':
-        index, name, vals = content
-        if type(f) is not commands.INDEX_MAPPING.get(index):
-            return (name, type(f).__name__)
-        for a, v in vals.items():
-            if not same(v, getattr(f, a)):
-                return ('%s.%s=%r' % (name, a, v), '%r' % (getattr(f, a),))
-    elif kind == 'H':
-        class_id, weight, size, props = content
-        if (f.class_id, f.weight, f.body_size) != (class_id, weight, size):
-            return ((class_id, weight, size), (f.class_id, f.weight, f.body_size))
-        for a in commands.Basic.Properties.__slots__:
-            exp = props.get(a, '' if a == 'cluster_id' else None)
-            if not same(exp, getattr(f.properties, a)):
-                return ('%s=%r' % (a, exp), '%r' % (getattr(f.properties, a),))
-    return None
+    return against_reference(data, r)
 
 
 def oracle_c05(ctx):
@@ -491,6 +524,15 @@ def oracle_c05(ctx):
             res.violation('decoder disagrees with the reference on a well-formed frame',
                           {'fn': 'c05_frame_case', 'args': pyrepr((data, junk))},
                           bad[0] if k == 'ok' else 'decodes', bad[1] if k == 'ok' else repr(bad))
+    for f_, ch_ in tail_byte_family():
+        data = frame.marshal(f_, ch_)
+        res.case(data.hex(), tag='last payload byte')
+        k, bad = catching(c05_frame_case, data, b'')
+        if k != 'ok' or bad:
+            res.violation('decoder disagrees with the reference on a frame whose payload ends in 0x%02x' % data[-2],
+                          {'fn': 'c05_frame_case', 'args': pyrepr((data, b''))},
+                          bad[0] if k == 'ok' else 'decodes', bad[1] if k == 'ok' else repr(bad))
+            break
     # a timestamp too large for datetime is refused, not returned as another instant
     for nbig in [253402300800000, 253402300800001, 2 ** 63, 2 ** 64 - 1, 10 ** 18]:
         res.case('T%d' % nbig, tag='timestamp refused')
@@ -518,8 +560,22 @@ def boundary_bodies(ctx):
     return out
 
 
+def tail_byte_family():
+    """frames whose LAST payload byte takes every value 0..255 (a frame-end look-alike among them):
+    bodies, a method ending in an integer field, a content header ending in an octet property"""
+    out = []
+    for v in range(256):
+        out.append((body.ContentBody(b'ab' + bytes([v])), 1))
+        out.append((commands.Connection.TuneOk(1, 2, 0x1200 | v), 0))
+        out.append((commands.Queue.DeclareOk('q', 5, 0x01020300 | v), 2))
+        out.append((real.make_header(3, [None, None, None, None, v] + [None] * 8 + ['']), 3))
+    return out
+
+
 def valid_frames(ctx, n, boundaries=False):
     out = boundary_bodies(ctx) if boundaries else []
+    for f_, ch_ in tail_byte_family():
+        out.append((f_, ch_, frame.marshal(f_, ch_)))
     for ch_ in (0, 65535):       # the empty body frame is a frame too (D12)
         out.append((body.ContentBody(b''), ch_, frame.marshal(body.ContentBody(b''), ch_)))
     for _ in range(n):
@@ -687,6 +743,10 @@ def oracle_c20(ctx):
             b[pos] = v
             bufs.append(bytes(b) + bytes(g.r.getrandbits(8) for _ in range(g.r.choice([0, 1, 9]))))
     bufs += [b'\xff\xff\xff\xff\xff\xff\xff', b'\x80\x80\x00\x80\x00\x00\x00', b'\x00' * 7, b'\xff' * 16]
+    # buffers that begin / end with a byte string the source itself mentions (b'AMQP', b'\\xce', ...)
+    for lit in getattr(ctx, 'byte_literals', []) + [b'AMQP', b'\xce']:
+        for tail in (b'', b'\x00\x00\x09\x01', b'\x00' * 7, bytes(g.r.getrandbits(8) for _ in range(9))):
+            bufs += [lit + tail, tail + lit, lit[:2] + tail]
     for b in bufs:
         res.case(b.hex(), trivial=len(b) == 0, tag='len<7' if len(b) < 7 else 'len>=7', sample={'buffer': b.hex()})
         bad = c20_case(b)
@@ -750,6 +810,17 @@ def fault_stream(ctx, frames, per_frame):
     for words in (b'\x00\x01', b'\xff\xff', b'\x00\x01\x00\x01', b'\x80\x01\x00\x00'):
         p_ = b'\x00\x3c\x00\x00' + b'\x00' * 8 + words
         yield b'\x02\x00\x01' + struct.pack('>I', len(p_)) + p_ + b'\xce'
+    # deep nestings (accurate lengths on the way down) around a faulty innermost element
+    inners = [b'S\xff\xff\xff\xff', b'S\x00\x00\x00\x05ab', b'x\x00\x00\xff\xff', b'A\x00\x00\x00\x09b\x01', b'F\x00\x00\x00\x09\x01kV',
+              b'l\x00', b'D\x00', b'T', b'V', b'Z', b'S\x00\x00\x00\x01\xff']
+    for depth in (4, 12, 17, 24):
+        for inner0 in inners:
+            for kinds in ('A' * depth, 'F' * depth, ('AF' * depth)[:depth]):
+                inner = inner0
+                for kd in kinds:
+                    inner = (b'A' + struct.pack('>I', len(inner)) + inner) if kd == 'A' else \
+                        (b'F' + struct.pack('>I', len(inner) + 2) + b'\x01k' + inner)
+                yield queue_declare(b'\x01k' + inner)
     for n in (8, 14, 20, 40):
         inner = b'V'
         for _ in range(n):
@@ -1255,9 +1326,52 @@ def c12_history_case(v, seed):
     return None
 
 
+def attr_snapshot(f):
+    """(name, type, id, deep snapshot) of every instance attribute of a frame object"""
+    names = list(getattr(f, '__slots__', ())) or sorted(getattr(f, '__dict__', {}))
+    out = []
+    for n in names:
+        v = getattr(f, n, None)
+        out.append((n, type(v).__name__, id(v), snapshot(v) if not isinstance(v, (base.BasicProperties,)) else attr_snapshot(v)))
+    return out
+
+
+@replayer
+def c12_anyframe_case(kind, payload):
+    """marshal leaves the frame object exactly as it was: same attribute objects, types, contents"""
+    if kind == 'body':
+        f = body.ContentBody(payload)
+    elif kind == 'header':
+        f = real.make_header(5, payload)
+    elif kind == 'proto':
+        f = header.ProtocolHeader(*payload)
+    else:
+        f = heartbeat.Heartbeat()
+    before = attr_snapshot(f)
+    k1, b1 = catching(frame.marshal, f, 2)
+    k2, b2 = catching(frame.marshal, f, 2)
+    after = attr_snapshot(f)
+    if before != after:
+        diff = [(x[0], x[1], y[1]) for x, y in zip(before, after) if x != y]
+        return ('attributes unchanged by encoding', 'changed: %r' % (diff,))
+    if k1 != k2 or (k1 == 'ok' and b1 != b2):
+        return ('same bytes twice', (k1, k2))
+    return None
+
+
 def oracle_c12(ctx):
     res = Result('c12.order')
     g = ctx.gen
+    nprops = len(commands.Basic.Properties.__slots__)
+    anyframes = [('body', b'abc'), ('body', bytearray(b'abc')), ('body', bytearray(b'')), ('body', memoryview(b'abc')), ('proto', (0, 9, 1)), ('hb', None)]
+    anyframes += [('header', lanes.props_vals(ctx, g.r.getrandbits(nprops - 1))) for _ in range(40 if ctx.thorough else 10)]
+    for kind, payload in anyframes:
+        res.case('anyframe %s %s' % (kind, pyrepr(payload)[:200] if not isinstance(payload, memoryview) else 'memoryview'), tag='frame ' + kind)
+        k, bad = catching(c12_anyframe_case, kind, payload)
+        if k != 'ok' or bad:
+            res.violation('encoding a %s frame changes the frame object' % kind,
+                          {'fn': 'c12_anyframe_case', 'args': pyrepr((kind, payload)) if not isinstance(payload, memoryview) else "('body', memoryview(b'abc'))"},
+                          bad[0] if k == 'ok' else 'oracle runs', bad[1] if k == 'ok' else repr(bad))
     for i in range(60 if ctx.thorough else 12):
         v = g.table_ok(depth=2, breadth=4)
         v.update({'d1': D('2.50'), 'f0': 0.0, 'b': True, 'i': 1, 'd2': D('7')})
@@ -1324,7 +1438,12 @@ def typed_values_for(c, g):
         n = c[2]
         return ['', None, 'a' * (n - 1), 'a' * n, 'a' * (n + 1), 'a' * 255, 'é' * n, 'é' * (n + 1)]
     if kind == 'chars':
-        return ['', None, spec_tables.NAME_CHARS[:60], spec_tables.NAME_CHARS[60:], 'a\n', 'a!', 'é', '\x00', 'a' * 50 + '*'] + \
+        positional = []
+        for n in (2, 127, 128, 129, 200, 255, 256):
+            for pos in (0, 1, n // 2, 126, 127, 128, n - 2, n - 1):
+                if 0 <= pos < n:
+                    positional.append('a' * pos + '|' + 'a' * (n - pos - 1))
+        return positional + ['', None, spec_tables.NAME_CHARS[:60], spec_tables.NAME_CHARS[60:], 'a\n', 'a!', 'é', '\x00', 'a' * 50 + '*'] + \
             [chr(g.codepoint()) for _ in range(12)] + ['ab' + chr(g.codepoint()) + 'c' for _ in range(6)]
     if kind == 'oneof':
         return list(c[2]) + [None, 0, 3, 255, 127]
@@ -1373,6 +1492,24 @@ def oracle_c13(ctx):
     res = Result('c13.validation')
     g = ctx.gen
     names = list(spec_tables.CONSTRAINTS) + ['Basic.Properties']
+    # interactions: one constrained attribute probed while each OTHER constrained attribute is None
+    for name in names:
+        cons = spec_tables.PROPS_CONSTRAINTS if name == 'Basic.Properties' else spec_tables.CONSTRAINTS[name]
+        attrs = sorted(set(c[1] for c in cons))
+        if len(attrs) < 2:
+            continue
+        for c in cons:
+            for other in attrs:
+                if other == c[1]:
+                    continue
+                for v in typed_values_for(c, g)[:14]:
+                    for mode in ('ctor', 'setattr'):
+                        res.case('%s %s %r with %s=None %s' % (name, c[1], v, other, mode), tag='pair')
+                        k, bad = catching(c13_case, name, {c[1]: v, other: None}, mode)
+                        if k != 'ok' or bad:
+                            res.violation('%s.%s=%r with %s=None (%s)' % (name, c[1], v, other, mode),
+                                          {'fn': 'c13_case', 'args': pyrepr((name, {c[1]: v, other: None}, mode))},
+                                          bad[0] if k == 'ok' else 'oracle runs', bad[1] if k == 'ok' else repr(bad))
     for name in names:
         cons = spec_tables.PROPS_CONSTRAINTS if name == 'Basic.Properties' else spec_tables.CONSTRAINTS[name]
         for c in cons:
@@ -1569,11 +1706,37 @@ def oracle_c17(ctx):
     return res
 
 
+def spec_names(cls):
+    """argument names in wire order from the hand-transcribed specification (not from the class)"""
+    if cls.name == 'Basic.Properties':
+        return [spec_tables.prop_pyname(n) for n, _ in spec_tables.PROPS]
+    for (cname, cid), methods in spec_tables.SPEC.items():
+        for (mname, mid, resp, args) in methods:
+            if spec_tables.camel(cname) + '.' + spec_tables.camel(mname) == cls.name:
+                return [spec_tables.pyname(a[0]) for a in args]
+    return None
+
+
 @replayer
 def c19_case(key, vals):
     cls = commands.Basic.Properties if key == 'props' else commands.INDEX_MAPPING[key]
     obj = real.make_props(vals) if key == 'props' else real.make_method(cls, vals)
-    names = list(cls.__slots__)
+    # ordinary read-only use of the object must not disturb the mapping view
+    for use in (repr, str, lambda o: '%r %s' % (o, o), lambda o: dict(o), lambda o: list(o), len, lambda o: o.attributes(), lambda o: sorted(o.attributes())):
+        try:
+            use(obj)
+        except Exception:  # noqa
+            pass
+    names = spec_names(cls) or list(cls.__slots__)
+    if list(cls.__slots__) != names:
+        return ('argument names in wire order %r' % names, list(cls.__slots__))
+    foreign = (set(dir(obj)) | {'__slots__', '__annotations__', '__dict__', '__class__', 'name', 'index', 'frame_id', 'marshal', ''}) - set(names)
+    for n in sorted(foreign):
+        try:
+            if n in obj:
+                return ('%r is not an argument name, so not a member' % n, 'reported as member')
+        except Exception as e:  # noqa
+            return ('membership test of %r answers' % n, repr(e))
 
     def check(o, expect):
         items = list(o)
